@@ -228,8 +228,8 @@ func run(c *hx.Ctx) error {
 		return fmt.Errorf("corpus too small (%d templates): is VERIF_REPO right?", len(corpus.Templates))
 	}
 	r := proto.NewRand(c.R.U64()) // seeds of the shared PRNG are shifts of one sequence: re-key
-	lexRunner := &lexh.Runner{Mode: "lex", Timeout: 10 * time.Second}
-	buildRunner := &lexh.Runner{Mode: "build", Timeout: 20 * time.Second}
+	lexRunner := &lexh.Runner{Mode: "lex", Timeout: 2 * time.Second}
+	buildRunner := &lexh.Runner{Mode: "build", Timeout: 6 * time.Second}
 	defer lexRunner.Close()
 	defer buildRunner.Close()
 	buildOne := func(b lexh.BuildCase) lexh.BuildResult { return lexh.ParseBuildResult(buildRunner.Ask(b.Line())) }
